@@ -47,6 +47,8 @@ class Resolver:
         self.fn = fn
         self.prog = fn.prog
         self._memo = {}
+        self._inprogress = set()
+        self._loop_hits = set()
 
     # ---- reaching definitions of a local at a point -------------------------------------
     def reaching(self, l, b, idx):
@@ -173,26 +175,48 @@ class Resolver:
         if sd is not None:
             key = ("sd", l)
             if key in self._memo:
-                return self._memo[key]
-            self._memo[key] = ("loop", l)
-            e = self._def_expr(sd, depth + 1)
-            self._memo[key] = e
-            return e
+                return self._memo_get(key)
+            return self._memo_compute(key, l, lambda: self._def_expr(sd, depth + 1))
         rs = self.reaching(l, at[0], at[1])
         if not rs:
             return ("local", l)
         key = ("phi", l, tuple(sorted(map(str, rs))))
         if key in self._memo:
-            return self._memo[key]
+            return self._memo_get(key)
+
+        def compute():
+            es = []
+            for d in sorted(rs, key=str):
+                if d == "entry":
+                    es.append(("param", l) if fn.is_param(l) else ("uninit", l))
+                else:
+                    es.append(self._def_expr(d, depth + 1))
+            return es[0] if len(es) == 1 else ("phi", es, l)
+        return self._memo_compute(key, l, compute)
+
+    # memoisation that is independent of the order of queries: a value computed while an *outer* key
+    # was still in progress (and whose rendering therefore contains that key's ('loop', l) cut-off) is
+    # not kept, otherwise a later top-level query for it would see the cut-off instead of the value.
+    def _memo_get(self, key):
+        if key in self._inprogress:
+            self._loop_hits.add(key)
+        return self._memo[key]
+
+    def _memo_compute(self, key, l, thunk):
+        outer = self._loop_hits
+        self._loop_hits = set()
+        self._inprogress.add(key)
         self._memo[key] = ("loop", l)
-        es = []
-        for d in sorted(rs, key=str):
-            if d == "entry":
-                es.append(("param", l) if fn.is_param(l) else ("uninit", l))
-            else:
-                es.append(self._def_expr(d, depth + 1))
-        e = es[0] if len(es) == 1 else ("phi", es, l)
-        self._memo[key] = e
+        try:
+            e = thunk()
+        finally:
+            self._inprogress.discard(key)
+            hits = self._loop_hits - {key}
+            self._loop_hits = outer | hits
+        if hits:
+            del self._memo[key]
+        else:
+            self._memo[key] = e
         return e
 
     def _def_expr(self, d, depth):
@@ -930,6 +954,24 @@ def same(e1, e2):
     if p1 is not None or p2 is not None:
         return p1 == p2
     return strip_refs(e1) == strip_refs(e2)
+
+
+def same_value(e1, e2):
+    """order-independent sameness: the memoised resolver may render one value with or without
+    ('loop', l) cut-offs depending on which query met it first, so two renderings of the result of one
+    call site are compared by that site (function, block) instead of structurally."""
+    a, b = strip_refs(e1), strip_refs(e2)
+    if a == b:
+        return True
+    if a[0] == "call" and b[0] == "call":
+        return a[1] == b[1] and a[3] == b[3]
+    if a[0] == "cast" and b[0] == "cast":
+        return a[2] == b[2] and same_value(a[1], b[1])
+    if a[0] == "field" and b[0] == "field":
+        return a[2] == b[2] and same_value(a[1], b[1])
+    if a[0] == "downcast" and b[0] == "downcast":
+        return a[2] == b[2] and same_value(a[1], b[1])
+    return False
 
 
 def true_alternatives(fn, res=None, conds=None, local=0, want=True):
